@@ -3,6 +3,7 @@ mod c02;
 mod c03;
 mod syncmsg;
 mod c04;
+mod c04sys;
 mod c05;
 mod c06;
 mod c07api;
@@ -160,7 +161,7 @@ fn main() {
         "C01" => run(c01::C01::new(), &args, 1500, 50000),
         "C02" => run(c02::C02::new(listed_findings("C02")), &args, 3000, 60000),
         "C03" => run(c03::C03::new(), &args, 1500, 40000),
-        "C04" => run(c04::C04::new(), &args, 300, 6000),
+        "C04" => run2(c04::C04::new(), c04sys::C04Sys::new(), "system", &args, (300, 6), (6000, 80)),
         "C05" => run(c05::C05::new(), &args, 2500, 40000),
         "C06" => run(c06::C06::new(), &args, 250, 4000),
         "C08" => run(c08::C08::new(), &args, 700, 20000),
